@@ -127,7 +127,7 @@ def parse_template(path):
         elif w[0] == "no_canary":
             curfn.no_canary = True
         elif w[0] == "assumed":
-            mm = re.match(r"assumed\s+([A-Za-z0-9_.:-]+):?\s*(.*)$", d)
+            mm = re.match(r"assumed\s+([A-Za-z0-9_.-]+):?\s*(.*)$", d)
             curfn.assumed = (mm.group(1), mm.group(2))
             curfn.no_canary = True
         elif w[0].rstrip(":") == "spec":
